@@ -163,3 +163,127 @@ Proof.
 Qed.
 
 End Prim.
+
+(* ================= BaseConverter: collections go by the runtime class of their elements ================= *)
+Section RuntimeView.
+Variable E : env.
+
+(* a primitive value is a value of Any (seen through its runtime class) *)
+Lemma prim_uval : forall v, primitive v = true -> uval E v TAny.
+Proof.
+  fix IH 1. intros v Hp. destruct v as [|p e|en i|l|l|l|l|kvs|c fs]; cbn [primitive] in Hp; try discriminate.
+  - constructor.
+  - apply UAny; [discriminate|]. cbn. constructor.
+  - apply UAny; [discriminate|]. cbn. constructor. induction l as [|x l IHl]; constructor; cbn in Hp; apply andb_true_iff in Hp; destruct Hp; auto.
+  - apply UAny; [discriminate|]. cbn. constructor. induction l as [|x l IHl]; constructor; cbn in Hp; apply andb_true_iff in Hp; destruct Hp; auto.
+  - apply UAny; [discriminate|]. cbn. constructor. induction l as [|x l IHl]; constructor; cbn in Hp; apply andb_true_iff in Hp; destruct Hp; auto.
+  - apply UAny; [discriminate|]. cbn. constructor. induction l as [|x l IHl]; constructor; cbn in Hp; apply andb_true_iff in Hp; destruct Hp; auto.
+  - apply UAny; [discriminate|]. cbn. constructor. induction kvs as [|[k x] kvs IHl]; constructor; cbn in Hp; apply andb_true_iff in Hp; destruct Hp as [Hkx Hr].
+    + apply andb_true_iff in Hkx. destruct Hkx. cbn. split; auto.
+    + auto.
+Qed.
+
+(* every value of a type is a value of Any: what the type announces is what the runtime classes show *)
+Lemma uval_any : forall x t, uval E x t -> uval E x TAny.
+Proof.
+  fix IH 3. intros x t H. destruct H as [|v Hne H'|p e|en i|v vs Hp|l t HF|l t HF|l ts HF|l t HF|l t HF|kvs kt vt HF| t|v t H'|c cd i Hc Hf|n t v H'|t v H'].
+  - constructor.
+  - now apply UAny.
+  - apply UAny; [discriminate|]. cbn. constructor.
+  - apply UAny; [discriminate|]. cbn. constructor.
+  - now apply prim_uval.
+  - apply UAny; [discriminate|]. cbn. constructor. induction HF as [|a l' Ha _ IHf]; constructor; [exact (IH _ _ Ha) | exact IHf].
+  - apply UAny; [discriminate|]. cbn. constructor. induction HF as [|a l' Ha _ IHf]; constructor; [exact (IH _ _ Ha) | exact IHf].
+  - apply UAny; [discriminate|]. cbn. constructor. induction HF as [|a t0 l' ts' Ha _ IHf]; constructor; [exact (IH _ _ Ha) | exact IHf].
+  - apply UAny; [discriminate|]. cbn. constructor. induction HF as [|a l' Ha _ IHf]; constructor; [exact (IH _ _ Ha) | exact IHf].
+  - apply UAny; [discriminate|]. cbn. constructor. induction HF as [|a l' Ha _ IHf]; constructor; [exact (IH _ _ Ha) | exact IHf].
+  - apply UAny; [discriminate|]. cbn. constructor. induction HF as [|a l' [Hk Hv] _ IHf]; constructor; [split; [exact (IH _ _ Hk) | exact (IH _ _ Hv)] | exact IHf].
+  - constructor.
+  - exact (IH _ _ H').
+  - apply UAny; [discriminate|]. cbn. econstructor; eassumption.
+  - exact (IH _ _ H').
+  - exact (IH _ _ H').
+Qed.
+
+Lemma uval_rt x t : uval E x t -> x <> VNone -> uval E x (rt_type x).
+Proof. intros H Hne. apply uval_any in H. inversion H; subst; [contradiction | assumption]. Qed.
+End RuntimeView.
+
+Section PrimBase.
+Variable E : env.
+Variable cfg : ccfg.
+Hypothesis H_base : c_gen cfg = false.
+Hypothesis H_enum : forall en v, In v (e_enum E en) -> primitive v = true.
+
+(* the types BaseConverter has unstructure hooks for: no heterogeneous tuples, NewTypes or Annotated (the fallback
+   returns such values unchanged) -- at top level and as declared attribute types; inside collections the declared
+   element type plays no part (elements go by their runtime class) *)
+Definition base_ty (t : ty) : bool := match t with TTuple _ | TNewType _ _ | TAnnot _ => false | _ => true end.
+Hypothesis H_env : forall c cd nm ft, e_class E c = Some cd -> assoc (cd_types cd) nm = Some ft -> base_ty ft = true.
+
+Notation un := (unstructure E cfg).
+
+Lemma rt_base (x : val) : base_ty (rt_type x) = true.
+Proof. destruct x; reflexivity. Qed.
+
+Theorem base_unstructure_primitive : forall n t x u, base_ty t = true -> uval E x t -> un n t x = Ok u -> primitive u = true.
+Proof.
+  induction n as [|n IH]; intros t x u Hb Hv Hu; [discriminate|].
+  assert (BY : forall y w, uval E y TAny -> match y with VNone => Ok VNone | _ => un n (rt_type y) y end = Ok w -> primitive w = true).
+  { intros y w Hy Hw. assert (Hd : y = VNone \/ y <> VNone) by (destruct y; [left; reflexivity | right; discriminate ..]).
+    destruct Hd as [->|Hne]; [inversion Hw; reflexivity|].
+    assert (Hw' : un n (rt_type y) y = Ok w) by (destruct y; try exact Hw; contradiction).
+    eapply IH; [apply rt_base | eapply uval_rt; [exact Hy | exact Hne] | exact Hw']. }
+  assert (COLL : forall l r, Forall (fun y => uval E y TAny) l ->
+            map_res (fun y => match y with VNone => Ok VNone | _ => un n (rt_type y) y end) l = Ok r -> forallb primitive r = true).
+  { intros l r HF Em. apply map_res_f2 in Em. eapply forall2_prim; [exact Em|]. intros a b Ha Hab. rewrite Forall_forall in HF. eapply BY; [apply HF; exact Ha | exact Hab]. }
+  assert (ANY : forall l t0, Forall (fun y => uval E y t0) l -> Forall (fun y => uval E y TAny) l).
+  { intros l t0 HF. eapply Forall_impl; [|exact HF]. intros a Ha. eapply uval_any; exact Ha. }
+  inversion Hv; subst; clear Hv; cbn [unstructure] in Hu; rewrite H_base in Hu; try discriminate Hb.
+  - (* Any: None *) inversion Hu. reflexivity.
+  - (* Any: by runtime class *) eapply BY; [apply UAny; eassumption | exact Hu].
+  - (* prim *) inversion Hu. reflexivity.
+  - (* enum *) unfold member_value in Hu. destruct (nth_error (e_enum E en) (N.to_nat i)) eqn:En; inversion Hu; subst.
+    eapply H_enum. eapply nth_error_In. exact En.
+  - (* literal *) inversion Hu; subst. assumption.
+  - (* list *) cbn [iter_val bind] in Hu. destruct (map_res _ l) as [r| |] eqn:Em; cbn [bind same_class] in Hu; try discriminate. inversion Hu; subst. cbn.
+    eapply COLL; [eapply ANY; eassumption | exact Em].
+  - (* homogeneous tuple *) cbn [iter_val bind] in Hu. destruct (map_res _ l) as [r| |] eqn:Em; cbn [bind same_class] in Hu; try discriminate. inversion Hu; subst. cbn.
+    eapply COLL; [eapply ANY; eassumption | exact Em].
+  - (* set *) cbn [iter_val bind] in Hu. destruct (map_res _ l) as [r| |] eqn:Em; cbn [bind same_class] in Hu; try discriminate.
+    destruct (set_of_list [] r) as [s| |] eqn:Es; cbn [bind] in Hu; try discriminate. inversion Hu; subst. cbn.
+    pose proof (COLL l r (ANY _ _ H) Em) as Hr. rewrite forallb_forall in Hr. apply forallb_forall. intros y Hy.
+    destruct (set_of_list_in _ _ _ Es y Hy) as [[]|Hin]. now apply Hr.
+  - (* frozenset *) cbn [iter_val bind] in Hu. destruct (map_res _ l) as [r| |] eqn:Em; cbn [bind same_class] in Hu; try discriminate.
+    destruct (set_of_list [] r) as [s| |] eqn:Es; cbn [bind] in Hu; try discriminate. inversion Hu; subst. cbn.
+    pose proof (COLL l r (ANY _ _ H) Em) as Hr. rewrite forallb_forall in Hr. apply forallb_forall. intros y Hy.
+    destruct (set_of_list_in _ _ _ Es y Hy) as [[]|Hin]. now apply Hr.
+  - (* mapping *) cbn [items_val bind] in Hu. unfold un_pairs in Hu. destruct (map_res _ kvs) as [ps| |] eqn:Em; cbn [bind] in Hu; try discriminate.
+    destruct (dict_of_pairs [] ps) as [d| |] eqn:Ed; cbn [bind] in Hu; try discriminate. inversion Hu; subst. cbn.
+    apply map_res_f2 in Em.
+    assert (Hps : Forall (pair_ok (fun k => primitive k = true) (fun v => primitive v = true)) ps).
+    { clear -Em H BY. induction Em as [|kv p kvs ps Hp _ IHm]; [constructor|]. inversion H as [|? ? [Hk Hv] Hr]; subst.
+      constructor; [|now apply IHm]. cbn in Hp.
+      match type of Hp with (do k <- ?A; _) = _ => destruct A as [k'| |] eqn:Ek; cbn [bind] in Hp; try discriminate end.
+      match type of Hp with (do v <- ?A; _) = _ => destruct A as [v'| |] eqn:Ev; cbn [bind] in Hp; try discriminate end.
+      inversion Hp; subst. split; cbn; [eapply BY; [eapply uval_any; exact Hk | exact Ek] | eapply BY; [eapply uval_any; exact Hv | exact Ev]]. }
+    pose proof (dict_of_pairs_ok _ _ _ _ _ Ed (Forall_nil _) Hps) as Hd.
+    apply forallb_forall. intros kv Hkv. rewrite Forall_forall in Hd. destruct (Hd kv Hkv) as [H1 H2]. now rewrite H1, H2.
+  - (* Optional: None *) inversion Hu. reflexivity.
+  - (* Optional: a value, by runtime class *) eapply BY; [eapply uval_any; eassumption | exact Hu].
+  - (* class *)
+    rewrite H in Hu. cbn [inst_fields] in Hu.
+    match type of Hu with context [un_interp_tuple _ ?h _ _] => set (hs := h) in Hu end.
+    assert (HH : forall w, from_handler val hs i w -> primitive w = true).
+    { intros w (nm & v & Ea & Eh). unfold hs in Eh. specialize (H0 nm v Ea). unfold field_ty in H0.
+      destruct (assoc (cd_types cd) nm) as [ft|] eqn:Et; [eapply IH; [eapply H_env; eassumption | exact H0 | exact Eh]|].
+      eapply BY; [exact H0 | exact Eh]. }
+    destruct (c_tuple cfg).
+    + destruct (un_interp_tuple val hs (cd_fields cd) i) as [l| |] eqn:El; cbn [bind] in Hu; try discriminate. inversion Hu; subst. cbn.
+      apply forallb_forall. intros w Hw. apply HH. pose proof (un_interp_tuple_vals _ _ _ _ _ El) as F. rewrite Forall_forall in F. now apply F.
+    + destruct (un_interp_dict val hs (cd_fields cd) i) as [d| |] eqn:Eg; cbn [bind] in Hu; try discriminate. inversion Hu; subst. cbn.
+      apply forallb_forall. intros kv Hkv. apply in_map_iff in Hkv. destruct Hkv as ([k w] & <- & Hin). cbn.
+      apply HH. pose proof (un_interp_dict_vals _ _ _ _ _ Eg) as F. rewrite Forall_forall in F. exact (F _ Hin).
+Qed.
+
+End PrimBase.
